@@ -1153,7 +1153,8 @@ class NestedPipeFunc(PipeFunc):
             # a parameter that no nested function maps over (a constant, a default,
             # an array taken whole) is not part of the MapSpec
             tuple(ArraySpec(n, axes[n]) for n in sorted(self.parameters) if n in axes),
-            tuple(ArraySpec(n, axes[n]) for n in sorted(at_least_tuple(self.output_name))),
+            # in the order of `output_name`: `Pipeline._validate_mapspec` compares position by position
+            tuple(ArraySpec(n, axes[n]) for n in at_least_tuple(self.output_name)),
             _is_generated=True,
         )
 
